@@ -20,6 +20,8 @@ import (
 // sit in pooled receive buffers. Each must still be parsed into its own lines: a buffer may go back to the pool only
 // when its datagram has been parsed, and never while the receiver reads into it. One processor, so that the pool hands
 // a released buffer straight back to the receiver.
+const maxUDP = 65507
+
 func TestUDPQueuedDatagrams(t *testing.T) {
 	defer runtime.GOMAXPROCS(runtime.GOMAXPROCS(1))
 	rapid.Check(t, func(t *rapid.T) {
@@ -42,8 +44,24 @@ func TestUDPQueuedDatagrams(t *testing.T) {
 				seq++
 				name := fmt.Sprintf("q%03d", seq)
 				line := fmt.Sprintf("%s:%d|c|#r:%d", name, seq, r)
-				history = append(history, line)
 				want.AddMetric(&gostatsd.Metric{Name: name, Type: gostatsd.COUNTER, Value: float64(seq), Rate: 1, Tags: gostatsd.Tags{fmt.Sprintf("r:%d", r)}, Source: "127.0.0.1"})
+				if rapid.IntRange(0, 3).Draw(t, "largest-datagram") == 0 {
+					// a datagram of the largest size UDP over IPv4 carries (65507 bytes): it fills its receive buffer almost to the end
+					var b strings.Builder
+					b.WriteString(line)
+					for j := 0; b.Len() < maxUDP-40; j++ {
+						n := fmt.Sprintf("%s_%04d", name, j)
+						fmt.Fprintf(&b, "\n%s:1|c", n)
+						want.AddMetric(&gostatsd.Metric{Name: n, Type: gostatsd.COUNTER, Value: 1, Rate: 1, Source: "127.0.0.1"})
+					}
+					last := name + "_last_" + strings.Repeat("z", maxUDP-b.Len()-len(name)-len("\n_last_:7|c"))
+					fmt.Fprintf(&b, "\n%s:7|c", last)
+					want.AddMetric(&gostatsd.Metric{Name: last, Type: gostatsd.COUNTER, Value: 7, Rate: 1, Source: "127.0.0.1"})
+					line = b.String()
+					history = append(history, fmt.Sprintf("%s ... (%d bytes, last line %s:7|c)", line[:24], len(line), last))
+				} else {
+					history = append(history, line)
+				}
 				if p := u.Write([]byte(line)); p != "" {
 					close(gate)
 					t.Skip("client socket: " + p)
@@ -62,6 +80,18 @@ func TestUDPQueuedDatagrams(t *testing.T) {
 			if p := u.Send([]byte(fmt.Sprintf("round%d:1|c", r))); p != "" {
 				vt.Fail(t, "C05:parser-panic", "receiver / parser failed: %s (sent %v)", p, history)
 			}
+		}
+		// UDP may drop: what the kernel did not hand to the receiver says nothing about the server
+		sent := float64(seq + 2*rounds) // the datagrams above, and per round the closing datagram with its sentinel
+		var recvd float64
+		for deadline := time.Now().Add(5 * time.Second); time.Now().Before(deadline); time.Sleep(time.Millisecond) {
+			if recvd = u.Received(); recvd >= sent {
+				break
+			}
+		}
+		if recvd < sent {
+			ev.C().Excluded("datagram-dropped-by-the-kernel", 1)
+			t.Skip("the kernel dropped a datagram")
 		}
 		maps, _ := u.Sink.Snapshot()
 		got := model.Agg{}
